@@ -1,6 +1,95 @@
 import PdeVerif.Json
+import PdeVerif.Model.Matrix
 namespace PdeVerif.Drv.C18
-open Lean PdeVerif
+open Lean PdeVerif PdeVerif.Matrix PdeVerif.BC PdeVerif.Stencil
 
-def handlers : List (String × Handler) := []
+def parsePCond (j : Json) : Except String (PCond Rat) := do
+  let k ← fldS j "kind"
+  match k with
+  | "dirichlet" => do pure (.dirichlet (← fldQ j "v"))
+  | "neumann" => do pure (.neumann (← fldQ j "v"))
+  | "mixed" => do pure (.mixed (← fldQ j "v") (← fldQ j "c"))
+  | "curvature" => do pure (.curvature (← fldQ j "v"))
+  | "periodic" => pure (.periodic false)
+  | "antiperiodic" => pure (.periodic true)
+  | _ => throw s!"unknown condition {k}"
+
+/-- face data: list of conditions, one per face point (row-major over the other axes) -/
+def parseFace (j : Json) (N : Nat) (s : Side) (dx : Rat) : Except String (Array (BCData Rat)) := do
+  let l ← getL parsePCond j
+  pure (l.map (bcData N s dx)).toArray
+
+def emptyBC : BCData Rat := ⟨0, []⟩
+
+/-- {"cls","shape","lo","dx","faces":[[lowerFace, upperFace] per axis]} ->
+    {"m": [[row, col, value]...], "v": [values]} -/
+def matrix (j : Json) : Except String Json := do
+  let cls ← fldS j "cls"
+  let shape ← fldNs j "shape"
+  let lo ← fldQs j "lo"
+  let dx ← fldQs j "dx"
+  let facesJ ← (do getL (fun a => do getL pure a) (← fld j "faces"))
+  let face (ax : Nat) (upper : Bool) : Except String (Array (BCData Rat)) := do
+    let pair := facesJ.getD ax []
+    let fj := pair.getD (if upper then 1 else 0) Json.null
+    parseFace fj (shape.getD ax 0) (if upper then .upper else .lower) (dx.getD ax 1)
+  let n0 := shape.getD 0 0
+  let n1 := shape.getD 1 0
+  let n2 := shape.getD 2 0
+  let d0 := dx.getD 0 1
+  let d1 := dx.getD 1 1
+  let d2 := dx.getD 2 1
+  let rmin := lo.getD 0 0
+  let r : Int → Rat := centre rmin d0
+  let f0l ← face 0 false
+  let f0h ← face 0 true
+  let total := shape.foldl (· * ·) 1
+  let mut rows : Array (Nat × (Rat × List (Op Rat))) := #[]
+  match cls, shape.length with
+  | "cart", 1 =>
+    for i in List.range n0 do
+      rows := rows.push (i, cart1Row n0 d0 (f0l.getD 0 emptyBC) (f0h.getD 0 emptyBC) i)
+  | "polar", _ =>
+    for i in List.range n0 do
+      rows := rows.push (i, polarRow n0 r d0 (rmin == 0) (f0l.getD 0 emptyBC) (f0h.getD 0 emptyBC) i)
+  | "sph", _ =>
+    for i in List.range n0 do
+      rows := rows.push (i, sphRow n0 r d0 (rmin == 0) (f0l.getD 0 emptyBC) (f0h.getD 0 emptyBC) i)
+  | "cart", 2 =>
+    let f1l ← face 1 false
+    let f1h ← face 1 true
+    for x in List.range n0 do
+      for y in List.range n1 do
+        rows := rows.push (x * n1 + y, cart2Row n0 n1 d0 d1 (fun y => f0l.getD y emptyBC) (fun y => f0h.getD y emptyBC)
+          (fun x => f1l.getD x emptyBC) (fun x => f1h.getD x emptyBC) x y)
+  | "cyl", _ =>
+    let f1l ← face 1 false
+    let f1h ← face 1 true
+    for x in List.range n0 do
+      for z in List.range n1 do
+        rows := rows.push (x * n1 + z, cylRow n0 n1 r d0 d1 (fun z => f0l.getD z emptyBC) (fun z => f0h.getD z emptyBC)
+          (fun x => f1l.getD x emptyBC) (fun x => f1h.getD x emptyBC) x z)
+  | "cart", 3 =>
+    let f1l ← face 1 false
+    let f1h ← face 1 true
+    let f2l ← face 2 false
+    let f2h ← face 2 true
+    for x in List.range n0 do
+      for y in List.range n1 do
+        for z in List.range n2 do
+          rows := rows.push ((x * n1 + y) * n2 + z, cart3Row n0 n1 n2 d0 d1 d2
+            (fun y z => f0l.getD (y * n2 + z) emptyBC) (fun y z => f0h.getD (y * n2 + z) emptyBC)
+            (fun x z => f1l.getD (x * n2 + z) emptyBC) (fun x z => f1h.getD (x * n2 + z) emptyBC)
+            (fun x y => f2l.getD (x * n1 + y) emptyBC) (fun x y => f2h.getD (x * n1 + y) emptyBC) x y z)
+  | _, _ => throw s!"matrix not modelled for {cls}/{shape.length}"
+  let mut ms : Array Json := #[]
+  let mut vs : Array Json := #[]
+  for (row, (c, ops)) in rows do
+    vs := vs.push (jQ c)
+    for col in List.range total do
+      let v := rowEntry ops col
+      if v != 0 then ms := ms.push (Json.arr #[toJson row, toJson col, jQ v])
+  pure (Json.mkObj [("m", Json.arr ms), ("v", Json.arr vs)])
+
+def handlers : List (String × Handler) := [("c18.matrix", matrix)]
 end PdeVerif.Drv.C18
